@@ -16,11 +16,11 @@ TECHNIQUE = "Lean 4 proof by induction over months with a state invariant + diff
 DRIVER = "driver_herd"
 LEAN_MODULES = ["AllfedModel.Props.C06"]
 OBLIGATIONS = [
-    "Allfed.C06.C06_ledger", "Allfed.C06.C06_nonneg", "Allfed.C06.C06_transfer", "Allfed.C06.C06_hours",
+    "Allfed.C06.C06_ledger", "Allfed.C06.C06_nonneg", "Allfed.C06.C06_transfer", "Allfed.C06.C06_transfer_none", "Allfed.C06.C06_hours",
     "Allfed.C06.C06_available_and_target", "Allfed.C06.C06_invariant", "Allfed.C06.C06_no_error",
     "Allfed.C06.C06_run_ledger", "Allfed.C06.C06_run_nonneg", "Allfed.C06.C06_run_transfer", "Allfed.C06.C06_run_hours",
-    "Allfed.C06.C06_run_available_and_target", "Allfed.C06.C06_run_no_error",
-    "Allfed.C06.C06_negative_births_counterexample",
+    "Allfed.C06.C06_run_available_and_target", "Allfed.C06.C06_run_chain", "Allfed.C06.C06_run_no_error",
+    "Allfed.C06.birthsBaseline_nonneg", "Allfed.C06.C06_negative_births_counterexample",
 ]
 RULE = ("real country codes x the 3 breeding strategies x generated monthly feed/grass series (zero, constant fraction 0..2 of the requirement, ramps, "
         "spikes, steps, random, exactly-enough knife edges) of 24-120 months, with and without a meat dictionary (feeding order), fed to the real main() "
